@@ -62,6 +62,8 @@ type RTPGate struct {
 	Count   atomic.Int64
 	Bytes   atomic.Int64
 	ReturnN func(h *rtp.Header, payload []byte) int
+	// FailIf, when set, decides per packet whether the write fails (checked after FailAt).
+	FailIf func(h *rtp.Header, payload []byte) error
 }
 
 // NewRTPGate creates a gate.
@@ -88,7 +90,11 @@ func (g *RTPGate) Write(h *rtp.Header, payload []byte, a interceptor.Attributes)
 	g.calls++
 	err := g.FailAt[call]
 	hook := g.Hook
+	failIf := g.FailIf
 	g.mu.Unlock()
+	if err == nil && failIf != nil {
+		err = failIf(h, payload)
+	}
 	if hook != nil {
 		hook(call, h, payload)
 		if !g.NoCopy {
@@ -174,6 +180,8 @@ type RTCPGate struct {
 	FailAll error
 	Hook   func(call int, pkts []rtcp.Packet)
 	Count  atomic.Int64
+	// FailIf decides per batch whether the write fails.
+	FailIf func(pkts []rtcp.Packet) error
 }
 
 // NewRTCPGate creates a gate.
@@ -203,6 +211,9 @@ func (g *RTCPGate) Write(pkts []rtcp.Packet, a interceptor.Attributes) (int, err
 		err = g.FailAll
 	}
 	hook := g.Hook
+	if err == nil && g.FailIf != nil {
+		err = g.FailIf(pkts)
+	}
 	g.mu.Unlock()
 	if hook != nil {
 		hook(call, pkts)
